@@ -1,6 +1,8 @@
 """C01 — caching is transparent: cached graphs return what uncached evaluation returns."""
 from __future__ import annotations
 
+import copy
+
 import labrea.cache
 from hypothesis import strategies as st
 
@@ -46,9 +48,18 @@ def check_history(case, ctx, partial=False):
             ctx.exclude("no-coalesce-value-failure")
             ctx.done(case, False, ["excluded-K6"])
             return
+    live = {}
     for i, o in enumerate(hist):
         r = ref.run(o)
         where = f"step {i} options={o}"
+        if case.get("reuse_dict_object"):
+            # the caller keeps ONE dictionary object and edits it in place between evaluations
+            live.clear()
+            live.update(copy.deepcopy(o))
+            o_call = live
+            labels.add("same-dict-object-edited-in-place")
+        else:
+            o_call = o
         # (a) same object, caching off for this dictionary -- taken before the cached call
         if case.get("off", "ctx") == "ctx" or i % 2 == 0:
             with labrea.cache.disabled():
@@ -58,7 +69,7 @@ def check_history(case, ctx, partial=False):
         # (b) fresh build
         fresh = run(build(spec).root.evaluate, o)
         mark = len(G.log)
-        on = run(G.root.evaluate, o)
+        on = run(G.root.evaluate, o_call)
         ran = set(G.bodies_run(mark))
         if not same(on, off):
             raise Violation("cached-vs-uncached", f"{where}: cached {on!r} but caching off {off!r}; reference {r!r}")
@@ -92,7 +103,7 @@ def check_partial(case, ctx):
 def cases(draw, prof, maxlen):
     spec = draw(specgen.specs(prof))
     hist = draw(U.histories(min_len=3, max_len=maxlen, p_present=draw(st.sampled_from([0.6, 0.85, 0.95]))))
-    return {"spec": spec, "history": hist, "off": draw(st.sampled_from(["ctx", "mixed"]))}
+    return {"spec": spec, "history": hist, "off": draw(st.sampled_from(["ctx", "mixed"])), "reuse_dict_object": draw(st.booleans())}
 
 
 PROFILE = specgen.profile()
